@@ -245,6 +245,13 @@ func c04main(c *Ctx) {
 			cs.caller, cs.lvl, cs.attrVals, cs.dups = false, slog.InfoLevel, 0, 0
 			h := slog.NewSlogHandler(lg, &slog.HandlerOptions{JSON: true, NoColor: true, NoSource: true, Level: slog.PanicLevel})
 			steps := gen.Pick(r, []int{0, 1, 2, 3, 4, 5, 6, 7, 9, 11})
+			// (half of the handlers open a group first: what is bound and logged afterwards nests under it - also when the
+			// record has no attributes of its own)
+			grouped := r.Bool()
+			if grouped {
+				h = h.WithGroup("hg~")
+				c.R.Add("handler_records_under_a_WithGroup_step", 1)
+			}
 			var kvs []gen.KV
 			for i := 0; i < steps; i++ {
 				a, kv := c15attr(r, fmt.Sprintf("h%d~", i), 3)
@@ -269,6 +276,9 @@ func c04main(c *Ctx) {
 					zeroAttr = true
 					c.R.Add("handler_records_with_a_zero_Attr_in_the_middle", 1)
 				}
+			}
+			if grouped && len(kvs) > 0 {
+				kvs = []gen.KV{{Key: "hg~", Val: gen.V{Kind: "group", Items: kvs}}}
 			}
 			cs.kvs = kvs
 			c.R.Add("records_through_a_derived_log_slog_handler_with_a_younger_sibling", 1)
@@ -379,6 +389,12 @@ func c04main(c *Ctx) {
 			// the zero Attr may also be shown (as "":null next to the record's attributes)
 			alt := cs
 			alt.kvs = append(append([]gen.KV(nil), cs.kvs...), gen.KV{Key: "", Val: gen.V{Kind: "nil"}})
+			if len(cs.kvs) == 1 && cs.kvs[0].Key == "hg~" && cs.kvs[0].Val.Kind == "group" {
+				// (under the handler's group it stands inside that group)
+				g := cs.kvs[0]
+				g.Val.Items = append(append([]gen.KV(nil), g.Val.Items...), gen.KV{Key: "", Val: gen.V{Kind: "nil"}})
+				alt.kvs = []gen.KV{g}
+			}
 			if len(c04check(payload, alt)) == 0 {
 				viols = nil
 			}
